@@ -40,7 +40,7 @@ PROPS = {
             "CV.Erc20.c15_registerAddsOne_monitor", "CV.Erc20.c15_toggleOnlyFlag_monitor", "CV.Erc20.c15_deleteRemovesAll_monitor",
             "CV.Erc20.c15_othersKeepRegistry_monitor", "CV.Erc20.c15_grpcLookups_model_monitor",
         ],
-        comps={"outcome", "resp", "reg", "nonce", "meta", "params", "evm", "token", "bank", "send"},
+        comps={"outcome", "resp", "reg", "nonce", "meta", "params", "evm", "token", "bank", "send", "abi"},
         assumptions=_ASSUME,
     ),
     "C14": dict(
@@ -57,7 +57,7 @@ PROPS = {
             "CV.Erc20.C14M.msg_gate_monitors_all", "CV.Erc20.C14M.c14_ordinaryTransfers_monitor", "CV.Erc20.C14M.c14_hookGate_monitor",
             "CV.Erc20.C14M.c14_hookGate_monitor_tx", "CV.Erc20.C14M.c14_monitors_k", "CV.Erc20.C14M.c14_monitors_tx",
         ],
-        comps={"outcome", "resp", "reg", "nonce", "meta", "params", "evm", "token", "bank", "send"},
+        comps={"outcome", "resp", "reg", "nonce", "meta", "params", "evm", "token", "bank", "send", "abi"},
         assumptions=_ASSUME,
     ),
     "C04": dict(
@@ -84,7 +84,7 @@ PROPS = {
             "CV.Erc20.C04M.c04_successExactReported_monitor_plain", "CV.Erc20.C04M.c04_noApproval_monitor_plain",
             "CV.Erc20.C04M.c04_transferTrue_monitor_plain", "CV.Erc20.C04M.c04_internalFailureRejects_monitor_plain",
         ],
-        comps={"outcome", "resp", "reg", "nonce", "meta", "params", "evm", "token", "bank", "send"},
+        comps={"outcome", "resp", "reg", "nonce", "meta", "params", "evm", "token", "bank", "send", "abi"},
         assumptions=_ASSUME,
     ),
 }
@@ -111,7 +111,7 @@ PROPS["C03"] = dict(
         "CV.Erc20.Token.c03_nativeExact_sd_monitor", "CV.Erc20.Token.c03_nativeGe_sd_monitor", "CV.Erc20.Token.c03_external_sd_monitor",
         "CV.Erc20.Token.evmTxBatch_single", "CV.Erc20.Token.exH_backing",
     ],
-    comps={"outcome", "resp", "reg", "nonce", "meta", "params", "evm", "token", "bank", "send"},
+    comps={"outcome", "resp", "reg", "nonce", "meta", "params", "evm", "token", "bank", "send", "abi"},
     assumptions=_ASSUME3,
 )
 
